@@ -385,6 +385,34 @@ def part_n(res, fa, codec, seen):
             res.add(Violation("c05.n", "independent-records-differ:after-refused-write", f"independent parser recovers {short(got, 200)} expected {short(exp, 200)}", info))
 
 
+def part_o(res, fa, codec, seen):
+    """Layout-valid files from the independent writer whose blocks are long, highly compressible runs a few bytes past
+    multiples of 64 KiB (a decompressor fed in steps must hand back everything it produced)."""
+    S = {"type": "record", "name": "Ro", "fields": [{"name": "i", "type": "int"}, {"name": "b", "type": "bytes"}]}
+    node, defs = names.resolve(S)
+    schema_json = json.dumps(S).encode()
+    for sizes in ((65536 + 1,), (65536 + 2,), (131072 + 3, 65537), (65535,), (3 * 65536 + 1, 1)):
+        recs = [{"i": k, "b": bytes(n)} for k, n in enumerate(sizes)]
+        enc = []
+        for r in recs:
+            v, idx = conform.plan(node, defs, r)
+            enc.append(binary.encode(node, defs, v, conform.Indices(idx)))
+        for blocks in ([(len(recs), b"".join(enc))], [(1, e) for e in enc]):
+            data = container.write([("avro.schema", schema_json), ("avro.codec", codec.encode())], [(2, False)], cont.sync_marker(), codec, blocks)
+            seen.add(data[:200])
+            info = {"part": "o", "schema": S, "records": f"<zero runs of {sizes}>", "codec": codec, "blocks": [b[0] for b in blocks]}
+            note_case(info)
+            res.evals += 1
+            for ctor in ("reader", "block_reader"):
+                try:
+                    got = list(fa.reader(io.BytesIO(data))) if ctor == "reader" else [r for b in fa.block_reader(io.BytesIO(data)) for r in b]
+                except Exception as e:
+                    got = f"{type(e).__name__}: {e}"
+                if got != recs:
+                    res.add(Violation("c05.o", f"reader-differs:compressible-runs:{ctor}", f"{ctor} on zero runs of {sizes} under {codec}: {short(got, 120)}", info))
+                    break
+
+
 class ForwardOnly:
     """A stream that can only be read forward (a pipe, a socket): read() and nothing else."""
 
@@ -698,6 +726,7 @@ def run_unit(unit, tier):
         part_k(res, fa, unit[1], seen)
         part_m(res, fa, unit[1], seen)
         part_n(res, fa, unit[1], seen)
+        part_o(res, fa, unit[1], seen)
     elif unit[0] == "c":
         part_c(res, fa, unit[1], seen)
     elif unit[0] == "d":
@@ -733,6 +762,9 @@ def replay(case):
         return res.violations
     elif part == "n":
         part_n(res, fa, case["codec"], set())
+        return res.violations
+    elif part == "o":
+        part_o(res, fa, case["codec"], set())
         return res.violations
     elif part == "g":
         si = [i for i, (n, r) in enumerate(cont.top_schemas()) if r == case["schema"]][0]
